@@ -7,15 +7,11 @@ From UV Require Import Base.Common Model.Wire Model.Varint Model.Ext.
 
 Definition all_lt (bound : N) (l : list N) : bool := forallb (fun x => x <? bound) l.
 
-(* Internal state coherent: the unexported length cache of UtlsPreSharedKeyExtension
-   (set by the first Len() call) is unset or current; FakePreSharedKeyExtension only
-   serialises binders of a TLS 1.3 hash size. Every other type has no hidden state
-   that Len and Read could disagree about. *)
+(* FakePreSharedKeyExtension only serialises binders of a TLS 1.3 hash size (Read refuses others
+   whatever the buffer). No type has hidden state that Len and Read could disagree about
+   (UtlsPreSharedKeyExtension's length cache is gone since fix C08-psk-len-after-edit). *)
 Definition state_ok (e : ext) : bool :=
   match e with
-  | EUtlsPreSharedKey s c _ ids bs =>
-      if s then match c with None => true | Some l => l =? psk_ext_len ids bs end
-      else true
   | EFakePreSharedKey _ _ bs => forallb (fun b => valid_binder_len (blen b)) bs
   | _ => true
   end.
